@@ -39,7 +39,7 @@ RULE = ("random histories over a random class hierarchy (1-4 classes) and report
         "was observed; distinct = distinct op-line sequences (sha1)")
 
 run_impl = CC.run_impl
-oracle = CC.oracle_collect
+oracle = CC.guarded(CC.oracle_collect)
 
 
 def generate(rng, tier, count):
